@@ -1,3 +1,474 @@
-/- C16: property theorems (stub — not built yet) -/
+import RSVerif.Lemmas.Rump
+/-
+C16 — Scan-based migration (rump) copies every scanned key faithfully.
+
+Model: RSVerif/Model/Rump.lean (fetcher/doFetch, NormalScanner, KeyFileScanner, writer/writeSend, RestoreBigkey, receiver
+of src/redis-shake/rump.go, scanner/*.go, common/split.go against MiniRedisC16). Helper lemmas: RSVerif/Lemmas/Rump.lean.
+The element-wise expansion of a big key (C02) is the parameter `Codec.expand` with the assumption `Codec.Sound`.
+
+Theorems (all quantified over every source keyspace, scan script — any pagination, empty pages, vanish events before any
+DUMP/PTTL —, db list, filter lists, thresholds, target.db, key_exists policy and initial target; no bounds):
+  copied_exact_gen, copied_exact, expiry_kept, copied_exact_partial     value / ttl / db of every surviving scanned key
+  vanished_skipped_run_continues                                         PTTL -2 keys are a no-op; nothing half-vanished is written
+  terminates_normal, no_zero_cursor_no_end, terminates_keyfile,
+  terminates, scanOk_normal, scanOk_keyfile, run_completes, dblist_exact termination exactly at cursor 0 / end of file
+  batches_flushed                                                        nothing left unsent, flush at scan.key_number
+  every_reply_read, receiver_never_starves_when_no_error                 receiver vs replies
+  counterexample_bigkey_rewrite_merge / _pttl_zero / _select_reply_uncounted   the three defects of the pinned code (D18),
+                                                                         each repaired by fixes/C16-*.patch
+-/
 namespace RSVerif.Properties.C16
+open RSVerif RSVerif.Spec.MiniRedisC16 RSVerif.Rump
+
+
+/-- The hypotheses under which "the target ends with the same value" can hold at all. -/
+structure Hyps (fx : Fixes) (cfg : Config) (M : Codec) (src : ScanSrc) (sks : SKeyspace) (dbs : List Nat) (ks0 : Keyspace) : Prop where
+  /-- C02's obligation: the element-wise expansion of a payload rebuilds its value -/
+  sound : M.Sound
+  /-- every payload of the source is one the target accepts; the big ones can be expanded -/
+  payloads : ∀ d k e, sks d k = some e → (∃ v, M.materialise e.payload = some v) ∧
+      (cfg.bigThreshold ≤ e.payload.length → ∃ es, M.expand e.payload = some es)
+  /-- no two scanned keys are written to the same target address (a cursor partition; distinct dbs or distinct keys
+      under a fixed target.db) -/
+  distinct : ((scanned cfg src dbs).map (tAddr cfg)).Nodup
+  /-- key_exists: `rewrite` overwrites (for a big key only with the repair C16-bigkey-rewrite); otherwise (`none`) the
+      address must be free -/
+  policy : ∀ a ∈ scanned cfg src dbs, ks0 (targetDbOf cfg a.1) a.2 = none ∨
+      (cfg.rewrite = true ∧ (fx.bigDel = true ∨ ∀ e, sks a.1 a.2 = some e → e.payload.length < cfg.bigThreshold))
+
+private theorem nodes_ok {fx : Fixes} {cfg : Config} {M : Codec} {src : ScanSrc} {sks : SKeyspace} {dbs : List Nat} {ks0 : Keyspace}
+    (H : Hyps fx cfg M src sks dbs ks0) :
+    let nodes := (fetcher cfg src sks dbs).nodes
+    (∀ nd ∈ nodes, NodeOk cfg M nd) ∧ (liveAddrs cfg nodes).Nodup ∧
+    (∀ nd ∈ nodes, nd.pttl ≠ -2 → Writable fx cfg ks0 (targetDbOf cfg nd.db) nd.key (isBig cfg nd)) := by
+  refine ⟨?_, ?_, ?_⟩
+  · intro nd hnd
+    obtain ⟨h1, h2⟩ := fetcher_sound cfg src sks dbs nd hnd
+    refine ⟨h1, fun hne => ?_⟩
+    obtain ⟨e, e1, e2, _⟩ := h2 hne
+    obtain ⟨p1, p2⟩ := H.payloads _ _ e e1
+    rw [e2]
+    exact ⟨p1, fun hb => p2 (by simpa [isBig, e2] using hb)⟩
+  · have hsub : List.Sublist (liveAddrs cfg (fetcher cfg src sks dbs).nodes) ((scanned cfg src dbs).map (tAddr cfg)) := by
+      rw [← fetcher_addrs cfg src sks dbs, List.map_map]
+      exact List.Sublist.map _ List.filter_sublist
+    exact List.Nodup.sublist hsub H.distinct
+  · intro nd hnd hne
+    have hmem : (nd.db, nd.key) ∈ scanned cfg src dbs := by
+      rw [← fetcher_addrs cfg src sks dbs]
+      exact List.mem_map.2 ⟨nd, hnd, rfl⟩
+    rcases H.policy _ hmem with h | ⟨h1, h2⟩
+    · exact Or.inl h
+    · refine Or.inr ⟨h1, ?_⟩
+      rcases h2 with h2 | h2
+      · exact Or.inr h2
+      · left
+        obtain ⟨e, e1, e2, _⟩ := (fetcher_sound cfg src sks dbs nd hnd).2 hne
+        have := h2 e e1
+        simp [isBig, e2]; omega
+
+
+/-- what the sequential writer leaves, transported to the real (buffered) writer of the run -/
+private theorem run_writer {fx : Fixes} {cfg : Config} {M : Codec} {src : ScanSrc} {sks : SKeyspace} {dbs : List Nat} {ks0 : Keyspace}
+    (H : Hyps fx cfg M src sks dbs ks0) :
+    let r := run fx cfg M src sks dbs (Target.init ks0)
+    r.w.aborted = false ∧ (∀ x ∈ r.w.replies, x.isErr = false) ∧
+    (∀ nd ∈ r.fetch.nodes, nd.pttl ≠ -2 → r.w.tgt.ks (targetDbOf cfg nd.db) nd.key = expectOf fx M nd) ∧
+    (∀ d k, (d, k) ∉ liveAddrs cfg r.fetch.nodes → r.w.tgt.ks d k = ks0 d k) := by
+  obtain ⟨n1, n2, n3⟩ := nodes_ok H
+  have hg : UGood (UState.init (Target.init ks0)) := ⟨rfl, rfl, rfl, by simp [UState.init]⟩
+  obtain ⟨g, c1, c2⟩ := ufold_correct fx cfg M H.sound _ _ hg n1 n2 n3
+  obtain ⟨w1, w2, w3, w4, _⟩ := writer_results_replies fx cfg M (Target.init ks0) (fetcher cfg src sks dbs).nodes
+  simp only [run]
+  rw [w3, w4, w2]
+  exact ⟨g.running, g.noerr, c1, c2⟩
+
+/-- **copied_exact** (general form, for the pinned code and for every subset of the repairs).
+For ALL source keyspaces, scan scripts (any pagination, empty pages, events that make keys vanish before any DUMP or PTTL),
+db lists, filters, thresholds, policies and initial targets that satisfy `Hyps`:
+the writer never aborts, no reply is an error, every scanned key that passes the filters and still exists at the end of
+the fetch is in the target — at the source db, or target.db — with the logical value of its DUMP payload (whichever
+route it took) and the ttl the writer worked with, and every address that no scanned key maps to keeps what it had. -/
+theorem copied_exact_gen (fx : Fixes) (cfg : Config) (M : Codec) (src : ScanSrc) (sks : SKeyspace) (dbs : List Nat)
+    (ks0 : Keyspace) (H : Hyps fx cfg M src sks dbs ks0) :
+    let r := run fx cfg M src sks dbs (Target.init ks0)
+    r.w.aborted = false ∧ (∀ x ∈ r.w.replies, x.isErr = false) ∧
+    (∀ d k e, (d, k) ∈ scanned cfg src dbs → r.fetch.ks d k = some e →
+      ∃ v, M.materialise e.payload = some v ∧
+        r.w.tgt.ks (targetDbOf cfg d) k = some ⟨v, ttlOf (effPttl fx e.pttl)⟩) ∧
+    (∀ d k, (d, k) ∉ (scanned cfg src dbs).map (tAddr cfg) → r.w.tgt.ks d k = ks0 d k) := by
+  obtain ⟨r1, r2, r3, r4⟩ := run_writer H
+  refine ⟨r1, r2, ?_, ?_⟩
+  · intro d k e hs he
+    have hmem := fetcher_mem cfg src sks dbs d k e hs he
+    have hlive : e.pttl ≠ -2 := by have := SEntry.pttl_ge e; omega
+    have h0 : sks d k = some e := fetcher_le cfg src sks dbs d k e he
+    obtain ⟨v, hv⟩ := (H.payloads d k e h0).1
+    refine ⟨v, hv, ?_⟩
+    have := r3 _ hmem hlive
+    simpa [expectOf, hv] using this
+  · intro d k hn
+    apply r4
+    intro hmem
+    apply hn
+    have hsub : List.Sublist (liveAddrs cfg (fetcher cfg src sks dbs).nodes) ((scanned cfg src dbs).map (tAddr cfg)) := by
+      rw [← fetcher_addrs cfg src sks dbs, List.map_map]
+      exact List.Sublist.map _ List.filter_sublist
+    exact hsub.subset hmem
+
+
+/-- **terminates** (whole run): when the scan of every db ends — the cursor returns 0, or the key file is exhausted —
+all three stages run to their end: `dre.close` is set, nobody called log.Panic, nothing blocks. -/
+theorem run_completes (fx : Fixes) (cfg : Config) (M : Codec) (src : ScanSrc) (sks : SKeyspace) (dbs : List Nat)
+    (ks0 : Keyspace) (H : Hyps fx cfg M src sks dbs ks0) (hscan : scanOk cfg src dbs = true) :
+    (run fx cfg M src sks dbs (Target.init ks0)).completed = true := by
+  obtain ⟨r1, r2, _, _⟩ := run_writer H
+  have hr := receiver_noerr _ _ 0 r2 (writer_need fx cfg M (Target.init ks0) (fetcher cfg src sks dbs).nodes)
+  simp only [RunOut.completed, run] at r1 hr ⊢
+  rw [fetcher_ok, hscan, r1, hr.1, hr.2.1]
+  rfl
+
+/-- **copied_exact** for the code with the three repairs: under `Hyps` every scanned, passing, still-existing key ends
+in the target with value = value of its payload and ttl = `ttlSpec` of its source ttl (no expiry stays no expiry, an
+expiry stays that expiry), in the same db number or the fixed target db; nothing else changes; the run completes. -/
+theorem copied_exact (cfg : Config) (M : Codec) (src : ScanSrc) (sks : SKeyspace) (dbs : List Nat) (ks0 : Keyspace)
+    (H : Hyps Fixes.all cfg M src sks dbs ks0) :
+    let r := run Fixes.all cfg M src sks dbs (Target.init ks0)
+    (∀ d k e, (d, k) ∈ scanned cfg src dbs → r.fetch.ks d k = some e →
+      ∃ v, M.materialise e.payload = some v ∧ r.w.tgt.ks (targetDbOf cfg d) k = some ⟨v, ttlSpec e.ttl⟩) ∧
+    (∀ d k, (d, k) ∉ (scanned cfg src dbs).map (tAddr cfg) → r.w.tgt.ks d k = ks0 d k) ∧
+    (scanOk cfg src dbs = true → r.completed = true) := by
+  obtain ⟨_, _, c3, c4⟩ := copied_exact_gen Fixes.all cfg M src sks dbs ks0 H
+  refine ⟨?_, c4, run_completes Fixes.all cfg M src sks dbs ks0 H⟩
+  intro d k e hs he
+  obtain ⟨v, hv, h⟩ := c3 d k e hs he
+  exact ⟨v, hv, by rw [h, ttl_fixed e Fixes.all rfl]⟩
+
+/-- no expiry stays no expiry, and an expiring key never becomes persistent -/
+theorem expiry_kept (cfg : Config) (M : Codec) (src : ScanSrc) (sks : SKeyspace) (dbs : List Nat) (ks0 : Keyspace)
+    (H : Hyps Fixes.all cfg M src sks dbs ks0) (d : Nat) (k : Key) (e : SEntry)
+    (hs : (d, k) ∈ scanned cfg src dbs)
+    (he : (run Fixes.all cfg M src sks dbs (Target.init ks0)).fetch.ks d k = some e) :
+    ∃ en, (run Fixes.all cfg M src sks dbs (Target.init ks0)).w.tgt.ks (targetDbOf cfg d) k = some en ∧
+      (en.ttl = none ↔ e.ttl = none) ∧ (∀ t, 0 < t → e.ttl = some t → en.ttl = some t) := by
+  obtain ⟨v, _, h⟩ := (copied_exact cfg M src sks dbs ks0 H).1 d k e hs he
+  refine ⟨_, h, ttlSpec_none _, ?_⟩
+  intro t ht het
+  simp only [het]
+  exact (ttlSpec_pos t t ht).2 rfl
+
+/-- **copied_exact_partial**: what holds of the code AS PINNED (none of the three repairs). `Hyps Fixes.pinned` already
+excludes a big key written over an existing one under `rewrite` (its policy field); in addition no scanned key may be in
+its last millisecond (PTTL 0). Then the target gets exactly the source ttl. -/
+theorem copied_exact_partial (cfg : Config) (M : Codec) (src : ScanSrc) (sks : SKeyspace) (dbs : List Nat) (ks0 : Keyspace)
+    (H : Hyps Fixes.pinned cfg M src sks dbs ks0)
+    (hz : ∀ d k e, sks d k = some e → e.ttl ≠ some 0) :
+    let r := run Fixes.pinned cfg M src sks dbs (Target.init ks0)
+    (∀ d k e, (d, k) ∈ scanned cfg src dbs → r.fetch.ks d k = some e →
+      ∃ v, M.materialise e.payload = some v ∧ r.w.tgt.ks (targetDbOf cfg d) k = some ⟨v, e.ttl⟩) ∧
+    (∀ d k, (d, k) ∉ (scanned cfg src dbs).map (tAddr cfg) → r.w.tgt.ks d k = ks0 d k) ∧
+    (scanOk cfg src dbs = true → r.completed = true) := by
+  obtain ⟨_, _, c3, c4⟩ := copied_exact_gen Fixes.pinned cfg M src sks dbs ks0 H
+  refine ⟨?_, c4, run_completes Fixes.pinned cfg M src sks dbs ks0 H⟩
+  intro d k e hs he
+  obtain ⟨v, hv, h⟩ := c3 d k e hs he
+  have h0 : sks d k = some e := fetcher_le cfg src sks dbs d k e he
+  exact ⟨v, hv, by rw [h, ttl_pinned e Fixes.pinned (hz d k e h0)]⟩
+
+
+/-! ### vanished keys -/
+
+/-- **vanished_skipped_run_continues**, for ALL inputs and every code version:
+(1) a key whose PTTL came back -2 — it vanished or expired before its DUMP, or between its DUMP and its PTTL — changes
+    nothing: the writer does exactly (same commands on the wire, same target, same replies, same elements handed to the
+    receiver) what it does when those keys are never scanned;
+(2) a node that is NOT skipped carries the payload and the PTTL of a key that did exist at the source (in particular a
+    key already gone at DUMP time, whose DUMP answered nil, always has PTTL -2 and is never written);
+(3) vanish events do not decide whether the fetcher finishes: that depends on the scan replies alone. -/
+theorem vanished_skipped_run_continues (fx : Fixes) (cfg : Config) (M : Codec) (src : ScanSrc) (sks : SKeyspace)
+    (dbs : List Nat) (t : Target) :
+    let nodes := (fetcher cfg src sks dbs).nodes
+    writer fx cfg M t nodes = writer fx cfg M t (nodes.filter (fun nd => decide (nd.pttl ≠ -2))) ∧
+    (∀ nd ∈ nodes, nd.pttl ≠ -2 → ∃ e, sks nd.db nd.key = some e ∧ nd.value = e.payload ∧ nd.pttl = e.pttl) ∧
+    (fetcher cfg src sks dbs).ok = scanOk cfg src dbs := by
+  refine ⟨?_, fun nd hnd => (fetcher_sound cfg src sks dbs nd hnd).2, fetcher_ok cfg src sks dbs⟩
+  simp only [writer]
+  rw [fold_skip]
+
+/-! ### termination of the scan -/
+
+/-- **terminates** (NormalScanner, one db): the loop of doFetch asks for the replies up to and including the first one
+with cursor 0 — however many pages precede it, empty or not — and for no further one. -/
+theorem terminates_normal (cfg : Config) (eofOk : Bool) (db : Nat) (ks : SKeyspace) (pre post : List Page) (z : Page)
+    (hpre : ∀ p ∈ pre, p.cursor ≠ 0) (hz : z.cursor = 0) :
+    let o := fetchPages cfg eofOk db ks (pre ++ z :: post)
+    o.ok = true ∧ o.rest = post ∧ o.scans = pre.length + 1 ∧
+    o.nodes.map (·.key) = (pre ++ [z]).flatMap (fun pg => pageKeys cfg pg.keys) := by
+  have hc : consumed (pre ++ z :: post) = pre ++ [z] ∧ pagesRest (pre ++ z :: post) = post ∧
+      (pre ++ z :: post).any (fun pg => pg.cursor = 0) = true := by
+    induction pre with
+    | nil => simp [consumed, pagesRest, hz]
+    | cons p ps ih =>
+      have hp := hpre p List.mem_cons_self
+      have := ih (fun q hq => hpre q (List.mem_cons_of_mem _ hq))
+      simp [consumed, pagesRest, hp, this]
+  obtain ⟨c1, c2, c3⟩ := fetchPages_ctl cfg eofOk db ks (pre ++ z :: post)
+  refine ⟨?_, ?_, ?_, ?_⟩
+  · rw [c1]; simp [pagesOk, hc.2.2]
+  · rw [c2, hc.2.1]
+  · rw [c3, hc.1, hc.2.2]; simp
+  · rw [fetchPages_keys, hc.1]
+
+/-- … and it does not stop earlier: if the source never returns cursor 0 the fetcher keeps scanning until the source
+stops answering, and that is an error (the model's way of saying "no termination without the final cursor"). -/
+theorem no_zero_cursor_no_end (cfg : Config) (db : Nat) (ks : SKeyspace) (pages : List Page)
+    (h : ∀ p ∈ pages, p.cursor ≠ 0) :
+    (fetchPages cfg false db ks pages).ok = false ∧ (fetchPages cfg false db ks pages).scans = pages.length + 1 := by
+  have hc : consumed pages = pages ∧ pages.any (fun pg => pg.cursor = 0) = false := by
+    induction pages with
+    | nil => simp [consumed]
+    | cons p ps ih =>
+      have hp := h p List.mem_cons_self
+      have := ih (fun q hq => h q (List.mem_cons_of_mem _ hq))
+      simp [consumed, hp, this]
+  obtain ⟨c1, _, c3⟩ := fetchPages_ctl cfg false db ks pages
+  exact ⟨by rw [c1]; simp [pagesOk, hc.2], by rw [c3, hc.1, hc.2]; simp⟩
+
+/-- **terminates** (KeyFileScanner): for EVERY number of lines — also 0 and exact multiples of the page size — the
+scanner yields `lines / n + 1` pages, all of them are fetched, their keys are the lines in order (minus filtered ones), the
+last page is the only one that ends the scan, and nothing is left in the file. -/
+theorem terminates_keyfile (cfg : Config) (hn : 0 < cfg.pageSize) (db : Nat) (ks : SKeyspace) (lines : List Key)
+    (evs : List (List (List (Nat × Key)) × List (List (Nat × Key)))) :
+    let o := fetchPages cfg true db ks (kfPages cfg.pageSize lines evs)
+    o.ok = true ∧ o.rest = [] ∧ o.scans = lines.length / cfg.pageSize + 1 ∧
+    o.nodes.map (·.key) = (kfPages cfg.pageSize lines evs).flatMap (fun pg => pageKeys cfg pg.keys) ∧
+    (kfPages cfg.pageSize lines evs).flatMap (·.keys) = lines := by
+  obtain ⟨k1, k2, k3, k4, k5⟩ := kfPages_spec cfg.pageSize hn lines evs
+  obtain ⟨c1, c2, c3⟩ := fetchPages_ctl cfg true db ks (kfPages cfg.pageSize lines evs)
+  have hany : (kfPages cfg.pageSize lines evs).any (fun pg => pg.cursor = 0) = true := by
+    simpa [pagesOk] using k3
+  refine ⟨by rw [c1]; simp [pagesOk], by rw [c2, k2], by rw [c3, k1, k5, hany]; simp, by rw [fetchPages_keys, k1], k4⟩
+
+/-- when every db that passes the db filter has a reply with cursor 0 in its SCAN script, the whole fetcher ends normally
+(after the final cursor of the last db) -/
+theorem scanOk_normal (cfg : Config) (script : Nat → List Page) (dbs : List Nat)
+    (h : ∀ db ∈ dbs, filterDB cfg db = false → (script db).any (fun pg => pg.cursor = 0) = true) :
+    scanOk cfg (.normal script) dbs = true := by
+  induction dbs with
+  | nil => rfl
+  | cons d ds ih =>
+    simp only [scanOk]
+    by_cases hf : filterDB cfg d = true
+    · simp only [hf, if_true]
+      exact ih (fun x hx => h x (List.mem_cons_of_mem _ hx))
+    · have hf' : filterDB cfg d = false := by simpa using hf
+      simp only [hf', Bool.false_eq_true, if_false, ScanSrc.pages, ScanSrc.eofOk, ScanSrc.next, pagesOk,
+        h d List.mem_cons_self hf', Bool.or_true, Bool.true_and]
+      exact ih (fun x hx => h x (List.mem_cons_of_mem _ hx))
+
+/-- **terminates** (whole fetcher, NormalScanner): when the SCAN script of every db that passes the db filter has a reply with
+cursor 0, the fetcher finishes normally, and on each such db — in the order of the db list — it has issued exactly as many
+SCANs as it takes to see that first cursor 0: the last SCAN of the run is the one whose reply carries the final cursor of the
+last db. -/
+theorem terminates (cfg : Config) (script : Nat → List Page) (sks : SKeyspace) (dbs : List Nat)
+    (h : ∀ db ∈ dbs, filterDB cfg db = false → (script db).any (fun pg => pg.cursor = 0) = true) :
+    (fetcher cfg (.normal script) sks dbs).ok = true ∧
+    (fetcher cfg (.normal script) sks dbs).scans =
+      (dbs.filter (fun db => !filterDB cfg db)).map (fun db => (db, (consumed (script db)).length)) :=
+  ⟨by rw [fetcher_ok]; exact scanOk_normal cfg script dbs h, fetcher_scans_normal cfg script sks dbs h⟩
+
+/-- a key-file run always ends: the reader is simply exhausted -/
+theorem scanOk_keyfile (cfg : Config) (pages : List Page) (dbs : List Nat) : scanOk cfg (.keyFile pages) dbs = true := by
+  induction dbs generalizing pages with
+  | nil => rfl
+  | cons d ds ih =>
+    simp only [scanOk]
+    split
+    · exact ih _
+    · simp [ScanSrc.eofOk, ScanSrc.next, pagesOk, ih]
+
+
+/-- the db list `exec` hands to the fetcher (`getSourceDbList`): exactly the dbs of `info keyspace` that hold keys and pass
+the db filter — so with `scanOk_normal` the run ends after the final cursor of the last of THESE dbs -/
+theorem dblist_exact (cfg : Config) (counts : List (Nat × Nat)) (db : Nat) :
+    db ∈ (sourceDbList cfg counts).1 ↔ ∃ n, (db, n) ∈ counts ∧ 0 < n ∧ filterDB cfg db = false := by
+  simp only [sourceDbList, List.mem_map, List.mem_filter, Bool.and_eq_true, decide_eq_true_eq, Bool.not_eq_true']
+  constructor
+  · rintro ⟨⟨d, n⟩, ⟨hm, hn, hf⟩, rfl⟩
+    exact ⟨n, hm, hn, hf⟩
+  · rintro ⟨n, hm, hn, hf⟩
+    exact ⟨(db, n), ⟨hm, hn, hf⟩, rfl⟩
+
+/-! ### batching -/
+
+/-- **batches_flushed**, for ALL node sequences, configurations and code versions: when the writer returns nothing is
+left unsent — the pipeline buffer of targetClient and the batch are empty (also after an abort) — and, unless it
+aborted, resultChan received exactly the nodes that are neither skipped nor big, in order, and the RESTORE of each of
+them is on the wire; in between, the batch never holds `scan.key_number` elements after an iteration (it is flushed the
+moment the count reaches it). -/
+theorem batches_flushed (fx : Fixes) (cfg : Config) (M : Codec) (t : Target) (nodes : List KeyNode) :
+    let w := writer fx cfg M t nodes
+    w.buf = [] ∧ w.batch = [] ∧
+    (w.aborted = false →
+      w.results.map (·.key) = (smallLive cfg nodes).map (·.key) ∧
+      ∀ nd ∈ smallLive cfg nodes,
+        Wire.cmd .main (.restore nd.key (effPttl fx nd.pttl) nd.value cfg.rewrite) ∈ w.wire) ∧
+    (∀ pre, pre <+: nodes → ((pre.foldl (writerStep fx cfg M) (WState.init t)).batch.length < max 1 cfg.pageSize)) := by
+  obtain ⟨_, h2, h3⟩ := writer_abs fx cfg M t nodes
+  obtain ⟨w1, _, _, w4, w5⟩ := writer_results_replies fx cfg M t nodes
+  refine ⟨h2, h3, ?_, ?_⟩
+  · intro ha
+    rw [w4] at ha
+    obtain ⟨u1, u2⟩ := ufold_results fx cfg M nodes (UState.init t) ha
+    refine ⟨by rw [w1, u1]; simp [UState.init], ?_⟩
+    intro nd hnd
+    rw [← mem_wireCmds, w5]
+    exact u2 nd hnd
+  · intro pre _
+    exact fold_batch_bound fx cfg M pre _ (init_inv t) (by simp [WState.init]; omega)
+
+/-! ### receiver -/
+
+/-- with the repair C16-select-reply, for ALL runs of the writer: the receiver never waits for a reply that does not
+come; it aborts exactly when some reply on the main connection is an error; and when it finishes it has read EVERY
+reply (none is left unread) and confirmed every element. -/
+theorem every_reply_read (fx : Fixes) (hfx : fx.selectCounted = true) (cfg : Config) (M : Codec) (t : Target)
+    (nodes : List KeyNode) :
+    let w := writer fx cfg M t nodes
+    let r := receiver w.results w.replies 0
+    r.starved = false ∧ r.aborted = w.replies.any Reply.isErr ∧
+    (r.aborted = false → r.unread = [] ∧ r.confirmed = w.results.length) := by
+  obtain ⟨w1, w2, _⟩ := writer_results_replies fx cfg M t nodes
+  have hseg := ufold_seg fx cfg M nodes (UState.init t) hfx (by simpa [UState.init] using Seg.nil)
+  rw [← w1, ← w2] at hseg
+  have := receiver_seg _ _ 0 hseg
+  simpa using this
+
+/-- whatever the code version, the receiver never blocks on a reply that will not come -/
+theorem receiver_never_starves_when_no_error (fx : Fixes) (cfg : Config) (M : Codec) (t : Target) (nodes : List KeyNode)
+    (h : ∀ x ∈ (writer fx cfg M t nodes).replies, x.isErr = false) :
+    (receiver (writer fx cfg M t nodes).results (writer fx cfg M t nodes).replies 0).starved = false ∧
+    (receiver (writer fx cfg M t nodes).results (writer fx cfg M t nodes).replies 0).aborted = false :=
+  let r := receiver_noerr _ _ 0 h (writer_need fx cfg M t nodes)
+  ⟨r.2.1, r.1⟩
+
+
+/-! ### witnesses and counter-examples -/
+
+def kA : Key := [97]
+def kB : Key := [98]
+def kC : Key := [99]
+/-- a toy codec: payload [1] is the list ["9"], payload [2,0,0] the string "v" -/
+def toyCodec : Codec where
+  materialise p := if p = [1] then some (.list [[57]]) else if p = [2, 0, 0] then some (.str [118]) else none
+  expand p := if p = [1] then some [.rpush [57]] else if p = [2, 0, 0] then some [.set [118]] else none
+
+theorem toyCodec_sound : toyCodec.Sound := by
+  intro p es h
+  simp only [toyCodec] at h ⊢
+  by_cases h1 : p = [1]
+  · simp only [h1, if_true, Option.some.injEq] at h ⊢
+    subst h; exact ⟨_, rfl, by decide⟩
+  · by_cases h2 : p = [2, 0, 0]
+    · simp only [h2] at h ⊢
+      simp at h
+      subst h; exact ⟨_, rfl, by decide⟩
+    · simp [h1, h2] at h
+
+/-- a run with everything in it: two dbs (0 and 2, a db filter drops 1), db 0 scanned in four replies (an empty one, one
+whose key "c" vanishes just before its DUMP, the one with cursor 0, and one that must never be asked for), a small key
+with a ttl, a big key without, a key in its last millisecond, rewrite over a target that already holds "a" -/
+def exCfg : Config := ⟨2, none, true, 2, [], [], ["1"], []⟩
+def exSrc : SKeyspace := fun d k =>
+  if d = 0 ∧ k = kA then some ⟨[1], some 7000⟩
+  else if d = 0 ∧ k = kB then some ⟨[2, 0, 0], none⟩
+  else if d = 0 ∧ k = kC then some ⟨[1], none⟩
+  else if d = 2 ∧ k = kA then some ⟨[2, 0, 0], some 0⟩
+  else none
+def exScan : ScanSrc := .normal fun d =>
+  if d = 0 then [⟨17, [], [], []⟩, ⟨5, [kA, kC], [[], [(0, kC)]], []⟩, ⟨0, [kB], [], []⟩, ⟨9, [kA], [], []⟩]
+  else [⟨0, [kA], [], []⟩]
+def exTgt : Keyspace := fun d k => if d = 0 ∧ k = kA then some ⟨.str [1, 2, 3], some 5⟩ else none
+
+example : Hyps Fixes.all exCfg toyCodec exScan exSrc [0, 1, 2] exTgt where
+  sound := toyCodec_sound
+  payloads := by
+    intro d k e h
+    simp only [exSrc] at h
+    repeat' split at h
+    all_goals first
+      | (cases h; exact ⟨⟨_, rfl⟩, fun _ => ⟨_, rfl⟩⟩)
+      | cases h
+  distinct := by decide
+  policy := fun _ _ => Or.inr ⟨rfl, Or.inl rfl⟩
+
+/-- … and what the run does with it (computed by the kernel from the model): "a" and "b" of db 0 and "a" of db 2 arrive with
+their values and ttls (7000, none, 1), "c" is skipped, the old value of "a" is gone, the run completes, two batches. -/
+example :
+    let r := run Fixes.all exCfg toyCodec exScan exSrc [0, 1, 2] (Target.init exTgt)
+    r.completed = true ∧ scanned exCfg exScan [0, 1, 2] = [(0, kA), (0, kC), (0, kB), (2, kA)] ∧
+    r.fetch.scans = [(0, 3), (2, 1)] ∧
+    r.w.tgt.ks 0 kA = some ⟨.list [[57]], some 7000⟩ ∧ r.w.tgt.ks 0 kB = some ⟨.str [118], none⟩ ∧
+    r.w.tgt.ks 0 kC = none ∧ r.w.tgt.ks 2 kA = some ⟨.str [118], some 1⟩ ∧
+    r.recv.confirmed = 1 ∧ r.recv.unread = [] := by decide
+
+
+def cfgOf (rewrite : Bool) (big : Nat) : Config := ⟨2, none, rewrite, big, [], [], [], []⟩
+
+/-- source: db `d` holds key "a" = payload [1] with the given ttl -/
+def srcOne (d : Nat) (ttl : Option Nat) : SKeyspace := fun d' k => if d' = d ∧ k = kA then some ⟨[1], ttl⟩ else none
+
+def onePage : ScanSrc := .normal fun _ => [⟨0, [kA], [], []⟩]
+
+/-- target that already holds key "a" in db `d` as the list ["x"] with 500 ms to live -/
+def tgtOne (d : Nat) : Keyspace := fun d' k => if d' = d ∧ k = kA then some ⟨.list [[120]], some 500⟩ else none
+
+def emptyKs : Keyspace := fun _ _ => none
+
+/-- **counterexample_bigkey_rewrite_merge** (pinned code): key_exists = rewrite, the key takes the big-key route and the
+target already has it: the source list ["9"] is APPENDED to the existing ["x"] and the old ttl survives — the target does
+not end with the source value. With the repair the key is replaced. -/
+theorem counterexample_bigkey_rewrite_merge :
+    (run Fixes.pinned (cfgOf true 0) toyCodec onePage (srcOne 0 none) [0] (Target.init (tgtOne 0))).w.tgt.ks 0 kA
+      = some ⟨.list [[120], [57]], some 500⟩ ∧
+    (run Fixes.all (cfgOf true 0) toyCodec onePage (srcOne 0 none) [0] (Target.init (tgtOne 0))).w.tgt.ks 0 kA
+      = some ⟨.list [[57]], none⟩ := by decide
+
+/-- **counterexample_pttl_zero** (pinned code): a key in its last millisecond (PTTL 0) arrives WITHOUT expiry, on both
+routes; with the repair it keeps one. -/
+theorem counterexample_pttl_zero :
+    (run Fixes.pinned (cfgOf false 100) toyCodec onePage (srcOne 0 (some 0)) [0] (Target.init emptyKs)).w.tgt.ks 0 kA
+      = some ⟨.list [[57]], none⟩ ∧
+    (run Fixes.pinned (cfgOf false 0) toyCodec onePage (srcOne 0 (some 0)) [0] (Target.init emptyKs)).w.tgt.ks 0 kA
+      = some ⟨.list [[57]], none⟩ ∧
+    (run Fixes.all (cfgOf false 100) toyCodec onePage (srcOne 0 (some 0)) [0] (Target.init emptyKs)).w.tgt.ks 0 kA
+      = some ⟨.list [[57]], some 1⟩ ∧
+    (run Fixes.all (cfgOf false 0) toyCodec onePage (srcOne 0 (some 0)) [0] (Target.init emptyKs)).w.tgt.ks 0 kA
+      = some ⟨.list [[57]], some 1⟩ := by decide
+
+/-- **counterexample_select_reply_uncounted** (pinned code): the only key lives in db 1, key_exists = none and the target
+already has it. The main connection answers `+OK` (select) and `-BUSYKEY` (RESTORE); the receiver reads ONE reply per key,
+i.e. the `+OK`, and the run completes "successfully" with the error unread and the key not copied. With the repair the
+receiver reads both replies and aborts. -/
+theorem counterexample_select_reply_uncounted :
+    let r := run Fixes.pinned (cfgOf false 100) toyCodec onePage (srcOne 1 none) [1] (Target.init (tgtOne 1))
+    r.w.replies = [.ok, .busy] ∧ r.completed = true ∧ r.recv.unread = [.busy] ∧
+    r.w.tgt.ks 1 kA = some ⟨.list [[120]], some 500⟩ ∧
+    (run Fixes.all (cfgOf false 100) toyCodec onePage (srcOne 1 none) [1] (Target.init (tgtOne 1))).recv.aborted = true := by
+  decide
+
+
+/-- key file with 4 lines and pages of 2: two full pages and a third, empty one that ends the scan; with 3 lines: a full
+page and a short one -/
+example : (kfPages 2 [kA, kB, kC, kA] []).map (fun p => (p.cursor, p.keys)) = [(1, [kA, kB]), (1, [kC, kA]), (0, [])] ∧
+    (kfPages 2 [kA, kB, kC] []).map (fun p => (p.cursor, p.keys)) = [(1, [kA, kB]), (0, [kC])] ∧
+    (kfPages 2 [] []).map (fun p => (p.cursor, p.keys)) = [(0, [])] := by decide
+
+/-- a key-file run over two dbs: the file is consumed while the first db is fetched, the second db sees an empty page -/
+example :
+    let r := run Fixes.all (⟨2, none, false, 100, [], [], [], []⟩ : Config) toyCodec
+      (.keyFile (kfPages 2 [kA, kB] [])) exSrc [0, 2] (Target.init emptyKs)
+    r.completed = true ∧ r.fetch.scans = [(0, 2), (2, 1)] ∧
+    r.fetch.nodes.map (fun nd => (nd.db, nd.key)) = [(0, kA), (0, kB)] := by decide
+
 end RSVerif.Properties.C16
